@@ -40,7 +40,11 @@ impl Server {
         ])
     }
     pub fn python() -> std::io::Result<Self> {
-        Self::spawn(&["python3".into(), "-u".into(), format!("{}/oracle/py_oracle.py", verif_root())])
+        Self::python_script("py_oracle.py")
+    }
+    /// A python3 JSON-lines server script under /verif/oracle/.
+    pub fn python_script(name: &str) -> std::io::Result<Self> {
+        Self::spawn(&["python3".into(), "-u".into(), format!("{}/oracle/{name}", verif_root())])
     }
     fn restart(&mut self) -> std::io::Result<()> {
         let _ = self.child.kill();
